@@ -24,7 +24,7 @@ def gen_cases(tier, seed):
     n = 1000 if tier == "quick" else 8000
     for k in range(n):
         rank = [2, 3, 4][k % 3]
-        cases.append({"kind": "bn", "rank": rank, "C": int(rng.integers(1, 4)), "momentum": [0.1, 0.5, 1.0, None][int(rng.integers(4))],
+        cases.append({"kind": "bn", "rank": rank, "C": int(rng.integers(1, 4)), "momentum": [0.1, 0.5, 1.0, None, 0.0][int(rng.integers(5))],
                       "affine": bool(rng.integers(2)), "track": bool(rng.random() < 0.75), "dtype": ["float32", "float64"][k % 2],
                       "eps": float(rng.choice([1e-5, 1e-3])), "n_events": int(rng.integers(5, 31)), "seed": int(rng.integers(2 ** 31))})
     for k in range(6 if tier == "quick" else 60):
@@ -101,6 +101,8 @@ def run_bn(ns, c):
             N = int(rng.integers(1, 9))
             shp = {2: (N, C), 3: (N, C, int(rng.integers(1, 4))), 4: (N, C, int(rng.integers(1, 3)), int(rng.integers(1, 3)))}[c["rank"]]
             x = (rng.standard_normal(shp) * 2 + 1).astype(dt)
+            if rng.random() < 0.2:
+                x = (rng.standard_normal(shp) * 1.0 + 300.0).astype(dt)      # a batch far from the origin (|mean|/std = 300)
             n_per = x.size // C
             use_batch = training or not c["track"]
             events.append(f"forward{list(shp)} training={training}")
@@ -143,7 +145,8 @@ def run_bn(ns, c):
                 ntrain_fw += 1
             got = np.asarray(y.data, dtype=np.float64)
             sc = max(1.0, float(np.max(np.abs(want))))
-            otol = (5e-4 if dt == np.float32 else 1e-9) * sc
+            amp = max(1.0, float(np.max(np.abs(x64))) / 50.0)                   # float32 rounding of x is amplified by |x|/sigma
+            otol = (5e-4 * amp if dt == np.float32 else 1e-9) * sc
             if got.shape != want.shape or not np.allclose(got, want, rtol=0, atol=otol):
                 viol.append(V(f"bn:output-differs:{'batch-stats' if use_batch else 'running-stats'}",
                               f"output in {'training' if training else 'eval'} mode is not the normalisation with the {'batch' if use_batch else 'running'} statistics",
